@@ -32,7 +32,7 @@ var interpretAllow = []string{
 	"errors", "io", "bytes", "strings", "sort", "container/heap", "encoding/binary", "unicode/utf8",
 	"unicode", "strconv", "math", "math/bits", "slices", "maps", "cmp", "container/list", "path", "path/filepath",
 	"github.com/jupp0r/go-priority-queue", "internal/bytealg", "internal/stringslite", "internal/byteorder",
-	"internal/itoa", "io/fs", "bufio", "encoding/hex", "encoding/base64", "text/tabwriter",
+	"internal/itoa", "io/fs", "internal/oserror", "bufio", "encoding/hex", "encoding/base64", "text/tabwriter",
 }
 
 // single pure functions of non-interpretable packages that are executed symbolically
